@@ -1,0 +1,13 @@
+//go:build verif
+
+package tmstate
+
+import (
+	"github.com/gordian-engine/gordian/tm/tmconsensus"
+	"github.com/gordian-engine/gordian/tm/tmengine/internal/tmstate/internal/tsi"
+)
+
+// VerifGetStepFromVoteSummary exposes tsi.GetStepFromVoteSummary to the verification harness.
+func VerifGetStepFromVoteSummary(vs tmconsensus.VoteSummary) uint8 {
+	return uint8(tsi.GetStepFromVoteSummary(vs))
+}
